@@ -173,3 +173,68 @@ def gen_focus_case(rng, prop):
                           nosep=1 if rng.random() < 0.3 else 0))
     typed = [L(rng.choice(["1", "2", "3", "c", "c", "r"])) for _ in range(rng.randrange(4, 18))]
     return [3000, specs, typed, [], 0, [[0, [3, 0, 0]], [1]]]
+
+
+def gen_adv_case(rng, with_error=False, with_password=False):
+    """Sessions that use the REAL stock dialogs of render/adv_widgets.py (7th case element: kinds, see adv_specs.py):
+    as quit dialog, pushed (modally) from an input handler, scheduled beneath / stacked; typed lines cover yes / no /
+    other keys, accepted and rejected input of GetInputScreen conditions, global keys, the empty line, EOF."""
+    import adv_specs
+    words = ["yes", "no", "a", "bb", "1", "", "x", "q"]
+    npl = rng.randrange(1, 4)
+    kinds = ["plain"] * npl
+    pool = ["yesno", "yesno", "help", "getinput", "getinput", "getpassinput"]
+    if with_error:
+        pool += ["error"]
+    if with_password:
+        pool += ["password", "password"]
+    for _ in range(rng.randrange(1, 5)):
+        k = rng.choice(pool)
+        if k in ("getinput", "getpassinput"):
+            conds = [[rng.randrange(2), rng.sample(words, rng.randrange(0, 4))] for _ in range(rng.choice([0, 1, 1, 2, 3]))]
+            k = adv_specs.getinput_kind(conds, password=(k == "getpassinput"))
+        kinds.append(k)
+    n = len(kinds)
+    dialogs = list(range(npl, n))
+    specs = []
+    for i in range(n):
+        if kinds[i] != "plain":
+            specs.append(adv_specs.adv_spec(kinds[i])); continue
+        inputs = []
+        for key in KEYS:
+            t = rng.choice(dialogs) if rng.random() < 0.75 else rng.randrange(n)
+            op = rng.choice([1, 1, 1, 0, 0, 2, 3])          # push modal / push / replace / schedule
+            cmds = [[op, t, rng.choice([0, 0, 7])]]
+            if rng.random() < 0.15:
+                cmds.append([rng.choice([1, 0]), rng.choice(dialogs), 0])      # two dialogs stacked by one handler
+            inputs.append((key, cmds, rng.choice([[0], [0], [0], [1]])))
+        specs.append(spec(inputs=inputs, default=([], None if rng.random() < 0.85 else [3]),
+                          closed=[[14, 3]] if rng.random() < 0.1 else [], pages=rng.choice([0, 0, 0, 1])))
+    quit_ = []
+    r = rng.random()
+    if r < 0.55:
+        yn = [d for d in dialogs if kinds[d] == "yesno"]
+        quit_ = [rng.choice(yn)] if yn and rng.random() < 0.8 else [rng.choice(dialogs)]
+    elif r < 0.65:
+        quit_ = [0]
+        specs[0] = spec(inputs=[("yes", [[13, 1]], [2]), ("no", [[13, rng.choice([2, 3])]], [2])])
+    first = [0] + [rng.choice(dialogs) for _ in range(rng.choice([0, 0, 1, 2]))]
+    if rng.random() < 0.3:
+        rng.shuffle(first)
+    acts = [[0] + [[3, f, rng.choice([0, 5])] for f in first], [1]]
+    typed = []
+    for _ in range(rng.randrange(3, 18)):
+        r = rng.random()
+        if r < 0.25:
+            typed.append(L(rng.choice(KEYS)))
+        elif r < 0.55:
+            typed.append(L(rng.choice(["yes", "no"])))
+        elif r < 0.65:
+            typed.append(L("q"))
+        elif r < 0.72:
+            typed.append(L(rng.choice(["c", "r"])))
+        elif r < 0.96:
+            typed.append(L(rng.choice(words + ["YES", " yes", "zz"])))
+        else:
+            typed.append([])
+    return [3000, specs, typed, quit_, 0, acts, kinds]
